@@ -29,7 +29,7 @@ Variable cfg : config.
 Variable mk : mkind.
 Variable po : bool.
 
-Notation fo := (found_of classify matches (c_variant cfg) mk po).
+Notation fo := (found_of classify matches (c_svariant cfg) mk po).
 Notation sstep := (sstep classify matches cfg mk po).
 Notation srun := (srun classify matches cfg mk po).
 
